@@ -3,6 +3,7 @@
 import ast
 import re
 
+from sa import cfg as cfgm
 from sa import core, lib
 from sa.core import call_name, dotted, last_attr, norm, walk_no_nested
 from sa.lib import ends_with
@@ -359,8 +360,22 @@ def r4_uid_filter(report, repo):
         return 'matched'
       if isinstance(expr.ops[0], ast.Is):
         return ('not', 'matched')
+    path = cfgm.Path(steps, None)
+    if isinstance(expr, ast.Compare) and len(expr.ops) == 1 and isinstance(
+        expr.ops[0], (ast.Is, ast.IsNot)) and isinstance(
+            expr.left, ast.Name) and isinstance(
+                expr.comparators[0], ast.Constant) and \
+        expr.comparators[0].value is None and grp is not None:
+      # the uid group is a mandatory top-level group of the pattern (found
+      # above): on a match, group('test_uid') is a string, never None
+      res = cfgm.path_resolve(path, expr.left)
+      if isinstance(res, ast.Call) and last_attr(res) == 'group' and \
+          core.is_name(res.func.value, mname) and len(res.args) == 1 and \
+          core.const_str(res.args[0]) == 'test_uid':
+        return isinstance(expr.ops[0], ast.IsNot)
     if isinstance(expr, ast.Compare) and len(expr.ops) == 1:
-      t = norm(expr)
+      t = norm(cfgm.path_resolve(path, expr.left)) + ' ' + norm(
+          cfgm.path_resolve(path, expr.comparators[0]))
       if "group('test_uid')" in t and 'self.test_uid' in t:
         if isinstance(expr.ops[0], ast.Eq):
           return 'same_uid'
